@@ -224,6 +224,22 @@ impl Prop for RandomHistory {
         if let Some(i) = (0..all.len()).find(|&i| oneshot[i].to_bits() != all[i].to_bits() && !(oneshot[i].is_nan() && all[i].is_nan())) {
             fail!("oneshot-differs", "Engine::synthesize and a fresh generator asked for everything differ at sample {}: {:e} vs {:e}", i, oneshot[i], all[i]);
         }
+        // ... and what a freshly built engine with the same settings returns in one shot (the engine
+        // above has served several requests for these labels by now)
+        {
+            let (mut fresh, _) = build_engine(&c.base.voice)?;
+            c.base.cond.apply(&mut fresh);
+            fresh.condition.set_phoneme_alignment_flag(c.alignment);
+            let first = match catch(|| fresh.synthesize(lines.as_slice())) {
+                Ok(Ok(w)) => w,
+                Ok(Err(e)) => fail!("synthesize-error", "synthesize failed on a fresh engine: {}", e),
+                Err(p) => fail!(p.signature(), "synthesize panicked: {}", p.msg),
+            };
+            ensure!(first.len() == all.len(), "oneshot-differs", "a fresh engine returns {} samples in one shot, a generator of the used engine {}", first.len(), all.len());
+            if let Some(i) = (0..all.len()).find(|&i| first[i].to_bits() != all[i].to_bits() && !(first[i].is_nan() && all[i].is_nan())) {
+                fail!("oneshot-differs", "one-shot synthesis on a fresh engine and a generator of an engine that has served these labels before differ at sample {}: {:e} vs {:e}", i, first[i], all[i]);
+            }
+        }
         rep.class(c.base.voice.class());
         rep.class_if(c.alignment, "alignment:on");
         rep.class_if(c.times.is_some(), "alignment:with-times");
